@@ -220,6 +220,18 @@ func runProcess(bin string, args []string, extraEnv []string, timeout time.Durat
 	return exit, buf.String(), false
 }
 
+// raceOrTail returns the race detector's report (first 60 lines of it) when there is one.
+func raceOrTail(out string) string {
+	if i := strings.Index(out, "WARNING: DATA RACE"); i >= 0 {
+		lines := strings.Split(out[i:], "\n")
+		if len(lines) > 60 {
+			lines = lines[:60]
+		}
+		return strings.Join(lines, "\n")
+	}
+	return tail(out, 6)
+}
+
 func tail(s string, n int) string {
 	lines := strings.Split(strings.TrimRight(s, "\n"), "\n")
 	if len(lines) > n {
@@ -401,6 +413,10 @@ func runCheck(spec *propSpec, tier string) int {
 			e := []string{"VERIF_PROP=" + spec.ID, "VERIF_TIER=" + tier, "VERIF_OUT=" + prefix, fmt.Sprintf("VERIF_SHARD=%d", s%shardsPerVariant),
 				fmt.Sprintf("VERIF_SHARDS=%d", shardsPerVariant), fmt.Sprintf("VERIF_SEED=%d", seed), fmt.Sprintf("VERIF_CHECKS=%d", perShard),
 				"VERIF_BUILD_TAGS=" + variants[s/shardsPerVariant]}
+			if spec.Race {
+				// a detected data race ends the shard at once; the case in progress is in its journal
+				e = append(e, "GORACE=halt_on_error=1 exitcode=66")
+			}
 			exit, out, to := runProcess(bin, args, e, time.Duration(ts.Timeout+90)*time.Second, spec.RlimitAS)
 			results[s] = shardResult{shard: s, exit: exit, output: out, timedOut: to}
 		}(s)
@@ -425,7 +441,7 @@ func runCheck(spec *propSpec, tier string) int {
 			if r.timedOut {
 				kind = "wedged"
 			}
-			rf := map[string]interface{}{"property": spec.ID, "kind": kind, "error": "process " + kind + " while executing this case: " + tail(r.output, 6), "case": json.RawMessage(jb)}
+			rf := map[string]interface{}{"property": spec.ID, "kind": kind, "error": "process " + kind + " while executing this case: " + raceOrTail(r.output), "case": json.RawMessage(jb)}
 			b, _ := json.MarshalIndent(rf, "", " ")
 			os.WriteFile(dst, b, 0o644)
 			violations = append(violations, dst)
